@@ -41,7 +41,7 @@ type hist struct {
 	s *ctrl.Session
 
 	cfgs      []ctrl.Config   // configurations since reset, in order
-	written   map[string]string // manifest -> key set under which its report was last finished
+	written   map[string]string // manifest -> key set under which its stored report was last written
 	clobbered map[string]bool   // manifest -> a failed attempt hit it while it was recorded as scanned
 	log       []string
 }
@@ -113,9 +113,20 @@ func (h *hist) index(m []int, script ctrl.Script) {
 		h.r.Fail("", "index did not return normally: "+wit)
 		return
 	}
-	// bookkeeping for the classification of the two listed findings
-	if strings.Contains(res.Trace, "Y") {
+	// bookkeeping for the classification of the two listed findings:
+	// under which scanner set was the stored report of this manifest last
+	// written (finished or intermediate; the write-back of a pure lookup does
+	// not count, it stores what was there)
+	wrote := strings.ContainsAny(res.Trace, "RY")
+	for p, k := range script {
+		if k == ctrl.FCommitErr && (ctrl.FaultAt(res, p) == 'Y' || ctrl.FaultAt(res, p) == 'R') {
+			wrote = true
+		}
+	}
+	if wrote && res.Trace != "MGR" {
 		h.written[ms] = keySet(cfg)
+	}
+	if strings.Contains(res.Trace, "Y") {
 		h.clobbered[ms] = false
 	}
 	if was && res.Failed {
